@@ -28,6 +28,7 @@ type script struct {
 	Status    int      `json:"status,omitempty"`          // 0 = 200
 	DeclCL    int      `json:"declared_length,omitempty"` // > len(Served): Content-Length declared, Served written, stream ended cleanly short of it
 	Trailer   string   `json:"trailer,omitempty"`         // value of the X-Sum trailer field sent after the body (no Content-Length then)
+	Lenient   bool     `json:"error_tolerated,omitempty"` // a stream outside what the content coding allows (zstd window above 8 MB, RFC 9659): payload or read error
 	DropFirst bool     `json:"drop_first,omitempty"`      // h1: the first attempt of an exchange is read and the connection closed unanswered
 	CRange    string   `json:"content_range,omitempty"`   // Content-Range header (206)
 	refTable  map[string]refOut
